@@ -17,7 +17,7 @@ from fractions import Fraction
 
 from ..alg import AlgError, Context, Rat
 from ..extract import Extractor
-from ..model import Program, walk_own, is_self_attr, dotted
+from ..model import strip_comments, Program, walk_own, is_self_attr, dotted
 from ..report import AnalysisError
 from ..slices import Affine
 from .. import stagger, contours
@@ -30,7 +30,7 @@ LOCS = ("centre", "xlow", "ylow", "corners")
 
 
 def T(mod, node):
-    return " ".join(mod.text(node).split())
+    return " ".join(strip_comments(mod.text(node)).split())
 
 
 def run(rep, tier):
@@ -204,7 +204,7 @@ def r2(prog, rep):
         got = hand.get(loc)
         ok = got is not None and got[0] == srcloc and got[1] == Affine(0, 1)
         rep.ob("R2", "hand-over: next region's poloidal_distance.%s starts from %s at logical y = ny" % (loc, srcloc), ok, f.site(), str(got), key="pd/handover/" + loc)
-    src = "".join(mod.text(f.node).split())
+    src = mod.code(f.node)
     rep.ob("R2", "the chain stops at a missing neighbour or on return to the first region", 'if(next_regionisNone)or(next_regionisself):' in src and "region=next_region" in src, f.site(), "", key="pd/stop")
     tot = {}
     for s in walk_own(f.node):
@@ -213,7 +213,7 @@ def r2(prog, rep):
                 if isinstance(st, ast.Assign):
                     la = stagger.loc_array(st.targets[0])
                     if la and T(mod, la[0]) == "self.total_poloidal_distance":
-                        tot[la[1]] = "".join(mod.text(st.value).split())
+                        tot[la[1]] = mod.code(st.value)
     ok = tot.get("centre") == "region.poloidal_distance.ylow[:,-1]" and tot.get("xlow") == "region.poloidal_distance.corners[:,-1]"
     rep.ob("R2", "total_poloidal_distance is the last region's value at y=ny, only for periodic chains", ok and len(tot) == 2, f.site(), str(tot), key="pd/total")
 
@@ -223,10 +223,10 @@ def r3(prog, rep):
     f = mod.funcs.get("FineContour.calcDistance")
     if f is None:
         raise AnalysisError("FineContour.calcDistance not found")
-    src = ["".join(mod.text(s).split()) for s in f.node.body]
+    src = [mod.code(s) for s in f.node.body]
     ok = "deltaSquared=(self.positions[1:]-self.positions[:-1])**2" in src and "self.distance[1:]=numpy.cumsum(numpy.sqrt(numpy.sum(deltaSquared,axis=1)))" in src
     rep.ob("R3", "fine-contour distance is the cumulative sum of chord lengths between consecutive points, starting at 0", ok, f.site(), "", key="dist/cumsum")
-    zero = any("self.distance=numpy.zeros(self.positions.shape[0])" in "".join(mod.text(s).split()) for s in f.node.body)
+    zero = any("self.distance=numpy.zeros(self.positions.shape[0])" in mod.code(s) for s in f.node.body)
     rep.ob("R3", "distance[0] == 0 (array allocated as zeros, entries 1.. overwritten)", zero, f.site(), "", key="dist/zero")
     g = mod.funcs.get("FineContour.getDistance")
     if g is None:
@@ -234,7 +234,7 @@ def r3(prog, rep):
     ctx = Context()
     ex = Extractor(ctx, mod)
     ex.on_attr = lambda d, node, env: ctx.sym(d)
-    ex.on_subscript = lambda node, value, env: ctx.sym("".join(mod.text(node).split()))
+    ex.on_subscript = lambda node, value, env: ctx.sym(mod.code(node))
     env = {"d1": ctx.sym("d1"), "d2": ctx.sym("d2")}
     ret = None
     for s in g.node.body:
